@@ -28,7 +28,7 @@ pub uninterp spec fn cbor_hash<T>(v: T) -> u64;
 impl IpldBlock {
     #[verifier::external_body]
     pub fn serialize_cbor<T>(v: &T) -> (r: Result<Option<IpldBlock>, ActorError>)
-        ensures r.is_ok() ==> r->Ok_0 == Some(IpldBlock { h: cbor_hash(*v) }),
+        ensures vx_store_ok() ==> r.is_ok(), r.is_ok() ==> r->Ok_0 == Some(IpldBlock { h: cbor_hash(*v) }),
                 r.is_err() ==> r->Err_0.code == 21,
     { unimplemented!() }
 }
@@ -251,13 +251,13 @@ impl Rt {
     // ---- state ----------------------------------------------------------------------------
     #[verifier::external_body]
     pub fn state<S>(&self) -> (r: Result<S, ActorError>)
-        ensures r.is_ok() ==> r->Ok_0 == rt_state::<S>(self.state_id@),
+        ensures vx_store_ok() ==> r.is_ok(), r.is_ok() ==> r->Ok_0 == rt_state::<S>(self.state_id@),
     { unimplemented!() }
     /// R3: first half of `rt.transaction(|st, rt| ..)` — loads the state, enters the transaction
     #[verifier::external_body]
     pub fn tx_begin<S>(&mut self) -> (r: Result<S, ActorError>)
         requires !old(self).in_tx@
-        ensures
+        ensures vx_store_ok() ==> r.is_ok(),
             r.is_ok() ==> r->Ok_0 == rt_state::<S>(old(self).state_id@)
                 && *final(self) == (Rt { in_tx: Ghost(true), ..*old(self) }),
             r.is_err() ==> *final(self) == *old(self),
